@@ -5,16 +5,19 @@ root='/verif/seeded'
 rows=[]
 for d in sorted(glob.glob(root+'/C*-*')):
     name=os.path.basename(d)
-    mf=os.path.join(root,'matrix',name+'.txt')
     meta=json.load(open(d+'/meta.json'))
     fired=[]; sigs={}
-    if os.path.exists(mf):
-        for line in open(mf):
-            m=re.match(r'(C\d+) rc=(\d+) ?(.*)',line.strip())
-            if m and m.group(2)=='1':
-                fired.append(m.group(1)); sigs[m.group(1)]=m.group(3)
+    seen=False
+    for sub in ('matrix-round1','own'):
+        mf=os.path.join(root,sub,name+'.txt')
+        if os.path.exists(mf):
+            seen=True
+            for line in open(mf):
+                m=re.match(r'(C\d+) rc=(\d+) ?(.*)',line.strip())
+                if m and m.group(2)=='1' and m.group(1) not in fired:
+                    fired.append(m.group(1)); sigs[m.group(1)]=m.group(3)
     meta['detected_by']=fired
-    meta['detection_run']="tools/matrix.sh: every quick check at VERIF_SEED=1 against the change applied to a scratch worktree of /repo HEAD"
+    meta['detection_run']="tools/matrix.sh at VERIF_SEED=1 against the change applied to a scratch worktree of /repo HEAD: seeded/own = the check of the property the change was written against (final version of the checks), seeded/matrix-round1 = every quick check against the round-1 changes (earlier version of the checks)"
     if fired:
         meta['example_signatures']={k:v for k,v in list(sigs.items())[:3]}
     json.dump(meta,open(d+'/meta.json','w'),indent=1)
@@ -23,6 +26,6 @@ for d in sorted(glob.glob(root+'/C*-*')):
 with open(root+'/MATRIX.md','w') as f:
     f.write("# Seeded changes x quick checks\n\nEach change compiles and passes the repository's 266 tests; its demonstration fails with it and passes without it (tools/seed_import.sh). `own` = the check of the property the change was written against.\n\n| change | files | own check fires | other checks that fire |\n|---|---|---|---|\n")
     for name,prop,files,fired in rows:
-        own='yes' if prop in fired else ('NO' if os.path.exists(os.path.join(root,'matrix',name+'.txt')) else 'pending')
+        own='yes' if prop in fired else ('NO' if (os.path.exists(os.path.join(root,'matrix-round1',name+'.txt')) or os.path.exists(os.path.join(root,'own',name+'.txt'))) else 'pending')
         f.write("| %s | %s | %s | %s |\n"%(name,files,own,' '.join(x for x in fired if x!=prop)))
 print("rows",len(rows),"own-missed",[r[0] for r in rows if r[1] not in r[3]])
